@@ -419,9 +419,22 @@ def r15_5(ctx):
     ctx.decide('R15.5', PY + '.MLStructure.nonzeros_for_columns', 'rows of the transpose, swapped back', ok if ok else None, nc.node)
     # dispatch on L covers 1, 2, 3, else
     nz = ctx.prog.func(PY + '.MLStructure.nonzero')
-    calls = sorted(call_name(c) for c in ast.walk(nz.node) if isinstance(c, ast.Call) and (call_name(c) or '').startswith('ml_nonzero'))
-    ctx.decide('R15.5', PY + '.MLStructure.nonzero', 'dispatch ' + ','.join(calls),
-               calls == ['ml_nonzero_2d', 'ml_nonzero_3d', 'ml_nonzero_nd'], nz.node, 'every level count has a kernel')
+    # the if-chain on self.L is evaluated for L = 1..4: L levels must reach the L-level kernel, 4 the generic one
+    want = {1: None, 2: 'ml_nonzero_2d', 3: 'ml_nonzero_3d', 4: 'ml_nonzero_nd'}
+    verdict, detail = True, []
+    for L, kern in want.items():
+        live = guards.specialise(nz.node.body, {'self.L': L})
+        used = sorted({n.id for st in live for n in ast.walk(st) if isinstance(n, ast.Name) and n.id.startswith('ml_nonzero_')})
+        if any(isinstance(st, ast.If) and 'self.L' in src(st.test) for st in live):
+            verdict = None if verdict else verdict
+            detail.append('L=%d: ?' % L)
+        elif used != ([kern] if kern else []):
+            verdict = False
+            detail.append('L=%d: %s' % (L, ','.join(used) or 'no kernel'))
+        else:
+            detail.append('L=%d: %s' % (L, kern or 'bidx[0]'))
+    ctx.decide('R15.5', PY + '.MLStructure.nonzero', 'dispatch on self.L (%s)' % '; '.join(detail), verdict, nz.node,
+               'every level count has a kernel', definite=True)
     for c in ast.walk(nz.node):
         if isinstance(c, ast.Call) and (call_name(c) or '').startswith('ml_nonzero'):
             ok = src(kwarg(c, 'lower_tri')) == 'lower_tri'
